@@ -80,6 +80,11 @@ def judge_lib_encode(ctx, spec, r, crash):
 
 def judge_lib_decode(ctx, spec, r, crash):
     kind, _fn, hexblob, v = spec
+    if isinstance(v, dict) and v.get("_damaged"):
+        # a damaged blob placed between the valid ones: whatever the decoder does with it (C05 judges that), the valid blobs
+        # that follow in the same process must still be read correctly
+        ctx.bump_in("damaged_blobs_decoded_between_valid_ones", "refused" if (crash or "exc" in (r or {})) else "accepted")
+        return
     ctx.count()
     ctx.bump_in("direction_independent_to_lib", kind)
     if G.value_is_nontrivial(kind, v):
@@ -323,6 +328,11 @@ def run(ctx):
             except ValueError:
                 continue
             dec_specs.append((kind, "decode", blob.hex(), v2))
+            if i % 7 == 3 and len(blob) > 8:
+                # (what a row cut short by an interrupted sync, or a flipped bit, looks like)
+                cut = ctx.rng.choice([len(blob) - 1, len(blob) - 5, len(blob) // 2, 6, 5])
+                bad = blob[:cut] if i % 14 == 3 else blob[:len(blob) // 2] + bytes([blob[len(blob) // 2] ^ 0x5a]) + blob[len(blob) // 2 + 1:]
+                dec_specs.append((kind, "decode", bad.hex(), {"_damaged": True}))
     # the same containers as foreign writers produce them: other compression levels (stored blocks at level 0), other
     # strategies, smaller windows, several deflate blocks (full flushes) - over payloads that span several 16 KiB buffers
     import zlib as _z
